@@ -81,6 +81,9 @@ FieldsDef(m) ==
     [] m = "USERAUTH_INFO_RESPONSE"      -> <<F("count", "uint32"), F("response", "text")>>
     [] m = "USERAUTH_SUCCESS"            -> <<>>
     [] m = "USERAUTH_FAILURE"            -> <<F("methods", "namelist"), F("partial", "bool")>>
+    \* the same message with partial success = TRUE: the list of methods that can continue is not an error report
+    \* (BadAuthenticationType) but the RETURN VALUE of the auth call, produced in the caller's thread
+    [] m = "USERAUTH_FAILURE.partial"    -> <<F("methods", "namelist"), F("partial", "bool")>>
     [] m = "USERAUTH_BANNER"             -> <<F("message", "string"), F("lang", "string")>>
     [] m = "USERAUTH_INFO_REQUEST"       -> <<F("title", "text"), F("instructions", "text"), F("lang", "string"),
                                               F("count", "uint32"), F("prompt", "text"), F("echo", "bool")>>
@@ -133,8 +136,8 @@ AllMsgs == {"BANNER", "FRAME", "CIPHERTEXT", "KEXINIT", "NEWKEYS", "DISCONNECT",
            "USERAUTH_REQUEST.other", "USERAUTH_REQUEST.password", "USERAUTH_REQUEST.passwd_change",
            "USERAUTH_REQUEST.pk_query", "USERAUTH_REQUEST.publickey", "USERAUTH_REQUEST.kbdint",
            "USERAUTH_REQUEST.gss_mic", "USERAUTH_REQUEST.gss_keyex", "USERAUTH_GSSAPI_TOKEN", "USERAUTH_GSSAPI_MIC",
-           "USERAUTH_INFO_RESPONSE", "USERAUTH_SUCCESS", "USERAUTH_FAILURE", "USERAUTH_BANNER",
-           "USERAUTH_INFO_REQUEST", "USERAUTH_PK_OK", "GLOBAL_REQUEST.tcpip-forward",
+           "USERAUTH_INFO_RESPONSE", "USERAUTH_SUCCESS", "USERAUTH_FAILURE", "USERAUTH_FAILURE.partial",
+           "USERAUTH_BANNER", "USERAUTH_INFO_REQUEST", "USERAUTH_PK_OK", "GLOBAL_REQUEST.tcpip-forward",
            "GLOBAL_REQUEST.cancel-tcpip-forward", "GLOBAL_REQUEST.other", "REQUEST_SUCCESS", "REQUEST_FAILURE",
            "CHANNEL_OPEN.session", "CHANNEL_OPEN.other", "CHANNEL_OPEN.auth-agent", "CHANNEL_OPEN.direct-tcpip",
            "CHANNEL_OPEN.forwarded-tcpip", "CHANNEL_OPEN.x11", "CHANNEL_OPEN_SUCCESS", "CHANNEL_OPEN_FAILURE",
@@ -162,7 +165,9 @@ Classes(t) ==
     [] t = "uint32"   -> {"trunc_before", "trunc_inside", "zero", "max", "random", "wrong_type"}
     [] t = "string"   -> StringCl \cup {"bad_utf8", "huge"}
     [] t = "text"     -> StringCl \cup {"bad_utf8", "control_chars", "huge"}
-    [] t = "namelist" -> StringCl \cup {"bad_utf8", "unknown_only", "empty_elements", "huge"}
+    \* vendor_name / wrong_case: well-formed lists with names outside the fixed vocabulary (names are an open set,
+    \* RFC 4250 4.6.1); with "empty" (one empty name) and "empty_elements" (doubled comma) the unusual-names classes
+    [] t = "namelist" -> StringCl \cup {"bad_utf8", "unknown_only", "empty_elements", "huge", "vendor_name", "wrong_case"}
     [] t = "mpint"    -> StringCl \cup {"negative", "one", "huge"}
     [] t \in Blobs    -> StringCl \cup {"garbage", "other_algorithm", "inner_truncated", "inner_bad_utf8",
                                          "inner_len_max", "inner_zero_numbers"}
@@ -189,6 +194,10 @@ Interactive == {"kbdint", "password-kbdint"}
 \* (AuthHandler._finalize_pubkey_algorithm; transport thread for Transport, caller's thread for
 \* ServiceRequestingTransport/AuthOnlyHandler = "@srt"); the other calls are controls that must not touch it.
 LaterCalls  == {"publickey-rsa", "publickey-rsa@srt", "publickey-ed25519@srt", "password@srt"}
+\* auth calls of ServiceRequestingTransport / AuthOnlyHandler whose tail (wait_for_response) handles the peer's reply in
+\* the caller's thread; auth_none is left out: it raises TypeError by itself (no finish_message), whatever the peer sends
+SrtMethods  == {"password@srt", "publickey@srt", "kbdint@srt"}
+UnusualNames == {"vendor_name", "wrong_case", "empty", "empty_elements", "unknown_only"}
 Ciphers     == {"ctr-hmac", "ctr-etm", "cbc-hmac", "gcm"}        \* every CIPHERTEXT case is run once per suite
 
 VARIABLES role,      \* "client" | "server": the endpoint under test (the victim); fixed by Init
@@ -244,7 +253,9 @@ ParsedDef(r, s, f, meth) ==
                          ELSE {})
     [] s = "deferred" -> IF r = "client" THEN {"EXT_INFO"} ELSE {}
     [] s = "service" -> IF r = "server" THEN ServerAuthRequests \cup {"SERVICE_REQUEST"} ELSE {"SERVICE_ACCEPT"}
-    [] s = "userauth" -> {"USERAUTH_SUCCESS", "USERAUTH_FAILURE", "USERAUTH_BANNER"} \cup
+    [] s = "userauth" /\ meth \in SrtMethods -> {"USERAUTH_FAILURE.partial"}
+    [] s = "userauth" /\ meth \notin SrtMethods ->
+                         {"USERAUTH_SUCCESS", "USERAUTH_FAILURE", "USERAUTH_FAILURE.partial", "USERAUTH_BANNER"} \cup
                          (IF meth \in Interactive THEN {"USERAUTH_INFO_REQUEST"} ELSE {}) \cup
                          (IF meth = "publickey" THEN {"USERAUTH_PK_OK"} ELSE {})
     [] s = "kbdint"   -> {"USERAUTH_INFO_RESPONSE"}
@@ -254,7 +265,7 @@ ParsedDef(r, s, f, meth) ==
     [] OTHER -> {}
 
 ParsedOf == [r \in {"client", "server"}, s \in Stages, f \in KexFamilies \cup {"-"},
-             meth \in Methods \cup LaterCalls \cup {"-"}
+             meth \in Methods \cup LaterCalls \cup SrtMethods \cup {"-"}
                |-> ParsedDef(r, s, f, meth)]
 Parsed(r, s, f, meth) == ParsedOf[r, s, f, meth]
 
@@ -288,7 +299,7 @@ Case(s, f, meth, m, i, c) == [stage |-> s, fam |-> f, method |-> meth, msg |-> m
 
 \* every abstract case of the model for one role: what TLC enumerates and the driver concretises
 InModel(r, k) ==
-  /\ k.stage \in Stages /\ k.fam \in KexFamilies \cup {"-"} /\ k.method \in Methods \cup LaterCalls \cup {"-"}
+  /\ k.stage \in Stages /\ k.fam \in KexFamilies \cup {"-"} /\ k.method \in Methods \cup LaterCalls \cup SrtMethods \cup {"-"}
   /\ \/ /\ k.msg \in Parsed(r, k.stage, k.fam, k.method)
         /\ <<k.idx, k.class>> \in Malformations(k.msg)
      \/ /\ k.msg \in Misplaced(r, k.stage) /\ k.idx = 0 /\ k.class = "misplaced"
@@ -300,7 +311,8 @@ AuthStages == {"service", "userauth", "kbdint", "gss_token", "gss_mic", "deferre
 Core(r, k) == /\ k.stage \in AuthStages /\ k.idx > 0
               /\ k.msg \in Parsed(r, k.stage, k.fam, k.method) \
                          (Always \cup {"KEXINIT", "CIPHERTEXT"} \cup (IF k.stage = "deferred" THEN {} ELSE {"EXT_INFO"}))
-              /\ k.class \in {"trunc_before", "trunc_inside", "bad_utf8"}
+              /\ \/ k.class \in {"trunc_before", "trunc_inside", "bad_utf8"}
+                 \/ k.msg = "USERAUTH_FAILURE.partial" /\ k.idx = 1 /\ k.class \in UnusualNames
 
 (* --- how a malformed field comes out of the decoders of the pinned tree (used only when ~Guarded, and as
    the prediction the trace spec compares observations with).  "-" = no internal error expected:
@@ -350,6 +362,7 @@ WellFormed ==
      \/ stage = "secured" /\ role = "server" /\ Goto("service", "-", "-")              \* SERVICE_REQUEST/ACCEPT
      \/ stage = "secured" /\ role = "client" /\ \E me \in Methods : Goto("service", "-", me)   \* user calls auth_*
      \/ stage = "secured" /\ role = "client" /\ \E me \in LaterCalls : Goto("deferred", "-", me)  \* ... after the next message
+     \/ stage = "secured" /\ role = "client" /\ \E me \in SrtMethods : Goto("userauth", "-", me)  \* SRT call, request sent
      \/ stage = "service" /\ role = "client" /\ Goto("userauth", "-", method)          \* SERVICE_ACCEPT, request sent
      \/ stage = "service" /\ role = "server" /\ Goto("kbdint", "-", "-")               \* kbd-interactive query sent
      \/ stage = "service" /\ role = "server" /\ Goto("gss_token", "-", "-")            \* gssapi-with-mic accepted
@@ -377,7 +390,7 @@ Failures == surfaced \ {"tolerated"}                      \* the classes a resul
 FailureClassAllowed == Failures \subseteq AllowedClasses   \* C38 on the model
 
 TypeOK == /\ role \in Roles /\ stage \in Stages /\ fam \in KexFamilies \cup {"-"}
-          /\ method \in Methods \cup LaterCalls \cup {"-"}
+          /\ method \in Methods \cup LaterCalls \cup SrtMethods \cup {"-"}
           /\ (inj # <<>> => InModel(role, inj))
 
 \* spec -> code: the grammar once, then one CASE per abstract case (= per post-injection state) with its Core flag
